@@ -43,7 +43,7 @@ func init() {
 				out.Obs = append(out.Obs, v.Do(st))
 			}
 			out.Fin, out.Inner = v.Finish()
-			if !v.Slow {
+			if !v.Slow || v.Stuck {
 				return out
 			}
 			c.E.Count("wireasync:repeated-too-slow")
